@@ -92,7 +92,7 @@ fn reuse<C: CellType>(backend: Backend, code: &str, level: u32, input: &[u8], ca
     for (mode, budget, fault) in plan {
         let mut slot = new_slot();
         let sp: *mut Slot = &mut *slot;
-        let f = fault.map(|at| Fault { at, err: false });
+        let f = fault.map(|at| Fault::plain(at, false));
         let mut cxt = Context::<C>::new(
             Some(Box::new(LogReader { slot: sp, data: input.to_vec(), pos: 0, fault: f })),
             Some(Box::new(LogWriter { slot: sp, fault: f })),
